@@ -369,4 +369,7 @@ def generate():
     out += 'Definition src_logger_sk : list instr := inline src_process_message src_handler_sync.\n'
     out += 'Definition src_logger_fatal_sk : list instr := inline src_process_message_fatal src_handler_sync.\n'
     out += 'Definition src_handler_sk : list instr := src_handler_sync.\n'
+    out += '(* the entry points the threads of one run may use on an installed synchronous Logger: Qt macros, a direct call of\n'
+    out += '   the public process(), Qt macros at fatal level *)\n'
+    out += 'Definition src_entry_points : list (list instr) := [src_logger_sk; src_handler_sk; src_logger_fatal_sk].\n'
     return {'SrcConc.v': out}
